@@ -9,6 +9,8 @@ import VrlModel.Driver.C20
 import VrlModel.Driver.C22
 import VrlModel.Driver.C23
 import VrlModel.Driver.C24
+import VrlModel.Driver.C35
+import VrlModel.Driver.C36
 
 /-- Line protocol driver: one case per line `op <tab> arg…`, one reply line per case. -/
 def handlers : List (String → List String → Option String) := [
@@ -22,7 +24,9 @@ def handlers : List (String → List String → Option String) := [
   Driver.C20.handle,
   Driver.C22.handle,
   Driver.C23.handle,
-  Driver.C24.handle
+  Driver.C24.handle,
+  Driver.C35.handle,
+  Driver.C36.handle
 ]
 
 def dispatch (op : String) (args : List String) : String :=
